@@ -57,11 +57,13 @@ META = st.lists(st.tuples(st.sampled_from(['Title', 'Author', 'Date', 'Keywords'
                                            'Revision', 'BibTeX', 'Quotes Language'] + NUMERIC_KEYS),
                           st.tuples(st.integers(0, 99), st.sampled_from(ATTR_PAYLOADS + ['<b>', '</title>', '--', '#-5', '#0', '#3', '#7', '#99999', '#x']))), max_size=5, unique_by=lambda t: t[0]) \
     .map(lambda m: [[k, (p[1:] if p.startswith('#') else 'q%da%s0%dq' % (n, p, n))] for k, (n, p) in m] or None)
-CFG = gdoc.Cfg(words=word(), inlines=['t', 'em', 'st', 'code', 'link', 'img', 'esc', 'bare', 'fnref', 'ifn', 'imath', 'cite', 'gloss'],
+CFG = gdoc.Cfg(words=word(), inlines=['t', 'em', 'st', 'code', 'link', 'img', 'esc', 'bare', 'fnref', 'ifn', 'imath', 'cite', 'gloss', 'auto', 'email'],
                blocks=['para', 'atx', 'setext', 'hr', 'fence', 'icode', 'quote', 'list', 'table', 'figure', 'deflist', 'toc'],
                code=word().map(safe_for_code), codelines=word().map(safe_for_code), urls=URLS, titles=TITLES, images=IMGS, meta=META,
                langs=st.sampled_from([None] + LANGS), cell_inlines=['t', 'em', 'code', 'img', 'link', 'fnref'], cell_pad=st.booleans())
-EXTS = [wk.EXT_DEFAULT, wk.EXT_DEFAULT & ~EXT['SMART'], EXT['SMART'], wk.EXT_COMPAT, wk.EXT_DEFAULT | EXT['COMPLETE'], wk.EXT_DEFAULT | EXT['CRITIC_ACCEPT'], wk.EXT_DEFAULT | EXT['NO_LABELS']]
+EXTS = [wk.EXT_DEFAULT, wk.EXT_DEFAULT & ~EXT['SMART'], EXT['SMART'], wk.EXT_COMPAT, wk.EXT_DEFAULT | EXT['COMPLETE'], wk.EXT_DEFAULT | EXT['CRITIC_ACCEPT'], wk.EXT_DEFAULT | EXT['NO_LABELS'],
+        wk.EXT_DEFAULT | EXT['OBFUSCATE'], wk.EXT_COMPAT | EXT['OBFUSCATE'], wk.EXT_DEFAULT | EXT['CRITIC_REJECT'], wk.EXT_DEFAULT | EXT['RANDOM_FOOT'] | EXT['RANDOM_LABELS'],
+        wk.EXT_DEFAULT | EXT['COMPLETE'] | EXT['OBFUSCATE'], wk.EXT_DEFAULT | EXT['NO_META']]
 
 
 def strategy(tier):
